@@ -110,6 +110,60 @@ def run_case(rec, seq, tname):
                       f'{sorted(gotd - want)}')
 
 
+THEORY_SORTS = {
+    'arithmetic': ['Int', 'Real', ['Array', 'Int', 'Bool'],
+                   ['Array', 'Bool', 'Real']],
+    'bv': [['_', 'BitVec', '8'], ['Array', ['_', 'BitVec', '2'], 'Bool']],
+    'fp': [['_', 'FloatingPoint', '5', '11'], 'Float32', 'RoundingMode',
+           ['Array', 'Bool', 'Float64']],
+    'strings': ['String', ['Seq', 'Int'], ['Array', 'String', 'Bool'],
+                ['Seq', ['_', 'BitVec', '2']]],
+}
+
+
+def decl_forms(S):
+    return [
+        ['declare-const', 'x', S],
+        ['declare-fun', 'f', [], S],
+        ['declare-fun', 'f', ['Bool'], S],
+        ['declare-fun', 'f', [S], 'Bool'],
+        ['declare-fun', 'f', ['Bool', S], 'Bool'],
+        ['define-fun', 'f', [], S, 'v'],
+        ['define-fun', 'f', [['a', S]], 'Bool', 'true'],
+        ['define-sort', 'N', [], S],
+    ]
+
+
+def check_is_relevant(rec):
+    """a declaration whose sort mentions a sort of the theory is relevant:
+    theory detection may not disable the group for such an input"""
+    from harness import replaylib as R
+    for th, sorts in THEORY_SORTS.items():
+        mod = mutators.get_all_mutators()[th][0]
+        for S in sorts:
+            for d in decl_forms(S):
+                node = R.build(d)
+                rec.case(('is_relevant', th, repr(d)))
+                try:
+                    got = mod.is_relevant(node)
+                except Exception as e:  # noqa
+                    got = f'raised {type(e).__name__}'
+                if got is not True:
+                    rec.violation(
+                        f'C14/native/is_relevant[{th}]',
+                        {'theory': th, 'declaration': R.sexpr(d)},
+                        f'declares a symbol of the {th} theory but '
+                        f'is_relevant gives {got}: the group would be '
+                        'disabled automatically')
+    mod = mutators.get_all_mutators()['datatypes'][0]
+    for d in (['declare-datatype', 'T', [['c']]],
+              ['declare-datatypes', [['T', '0']], [[['c']]]]):
+        rec.case(('is_relevant', 'datatypes', repr(d)))
+        if mod.is_relevant(R.build(d)) is not True:
+            rec.violation('C14/native/is_relevant[datatypes]',
+                          {'declaration': R.sexpr(d)}, 'not relevant')
+
+
 def main():
     n = int(ARGS[0])
     rec = Recorder('C14/native/options', 'every single option, ordered '
@@ -117,6 +171,7 @@ def main():
                    'length 3-8; 4 inputs')
     seed = int(os.environ.get('VERIF_SEED', '0') or 0)
     rng = random.Random(seed)
+    check_is_relevant(rec)
     singles = ['--disable-all']
     for t in THEORIES:
         singles += [f'--{t}', f'--no-{t}']
